@@ -25,6 +25,15 @@ type VSlice struct {
 	Len  *Term
 	Elem types.Type
 }
+
+// Go map: domain array plus value arrays (slice-valued maps keep array and length per key)
+type VMap struct {
+	Has  *Term // (Array K Bool)
+	Val  *Term // (Array K E)  for scalar values, or (Array K (Array Int E)) for slice values
+	Len  *Term // (Array K Int) for slice values, nil otherwise
+	Key  types.Type
+	Elem types.Type // value type (possibly a slice type)
+}
 type VClosure struct {
 	Lit *ast.FuncLit
 }
@@ -342,6 +351,8 @@ func (e *Engine) freshValue(base string, t types.Type, st *State) Value {
 		ln := e.fresh(base+".len", SInt)
 		st.assume(mkCmp(">=", ln, mkInt(0)))
 		return VSlice{Arr: arr, Len: ln, Elem: u.Elem()}
+	case *types.Map:
+		return e.freshMap(base, u, st)
 	case *types.Signature:
 		return VFunc{ID: e.fresh(base, SInt), Sig: u}
 	case *types.Tuple:
@@ -352,6 +363,59 @@ func (e *Engine) freshValue(base string, t types.Type, st *State) Value {
 		return vs
 	}
 	return VTerm{T: e.fresh(base, e.sortOf(t)), Typ: t}
+}
+
+func (e *Engine) mapSorts(u *types.Map) (ks Sort, vs Sort, isSlice bool, es Sort) {
+	ks = e.sortOf(u.Key())
+	if sl, ok := u.Elem().Underlying().(*types.Slice); ok {
+		es = e.elemSort(sl.Elem())
+		return ks, arraySort(SInt, es), true, es
+	}
+	return ks, e.sortOf(u.Elem()), false, ""
+}
+
+func arraySortK(k, v Sort) Sort { return Sort("(Array " + string(k) + " " + string(v) + ")") }
+
+func (e *Engine) freshMap(base string, u *types.Map, st *State) VMap {
+	ks, vs, isSl, _ := e.mapSorts(u)
+	m := VMap{Has: e.fresh(base+".has", arraySortK(ks, SBool)), Val: e.fresh(base+".val", arraySortK(ks, vs)), Key: u.Key(), Elem: u.Elem()}
+	if isSl {
+		m.Len = e.fresh(base+".len", arraySortK(ks, SInt))
+		e.nfresh++
+		b := mkVar(fmt.Sprintf("k$%d", e.nfresh), ks)
+		st.assume(mkForall([]*Term{b}, mkCmp(">=", mkSelect(m.Len, b), mkInt(0)), [][]*Term{{mkSelect(m.Len, b)}}))
+	}
+	return m
+}
+
+func (e *Engine) mapGet(m VMap, k *Term) (Value, *Term) {
+	ok := mkSelect(m.Has, k)
+	if m.Len != nil {
+		sl := m.Elem.Underlying().(*types.Slice)
+		return VSlice{Arr: mkSelect(m.Val, k), Len: mkIte(ok, mkSelect(m.Len, k), mkInt(0)), Elem: sl.Elem()}, ok
+	}
+	zero := term(e.zeroValue(m.Elem))
+	return e.wrap(mkIte(ok, mkSelect(m.Val, k), zero), m.Elem), ok
+}
+
+func (e *Engine) mapSet(m VMap, k *Term, v Value) VMap {
+	n := m
+	n.Has = mkStoreK(m.Has, k, tTrue)
+	if m.Len != nil {
+		sl, ok := v.(VSlice)
+		if !ok {
+			unsup("map store of %T", v)
+		}
+		n.Val = mkStoreK(m.Val, k, sl.Arr)
+		n.Len = mkStoreK(m.Len, k, sl.Len)
+		return n
+	}
+	n.Val = mkStoreK(m.Val, k, term(v))
+	return n
+}
+
+func mkStoreK(arr, idx, v *Term) *Term {
+	return &Term{Op: "store", Args: []*Term{arr, idx, v}, Sort: arr.Sort}
 }
 
 func (e *Engine) elemSort(t types.Type) Sort {
